@@ -17,7 +17,11 @@ CLAIMED["C01"] = dict(cat="exploration", ref="DESIGN.md 3.1",
    text="Differential check: each generated experiment is executed in-process, on the simulated multiprocessing layer under a sampled (processes, maxchunksperchild, maxtasksperchunk) and one seeded schedule of workers/threads/queues, and in-process again; all four tables and .experiment must agree. Sampling over experiments, configurations and schedules.",
    note="Trusted base: simulated multiprocessing primitives (sim/prims.py); per-pid virtualisation of CobaContext / coba.random / UniqueKey (a worker starts from pristine globals, as a spawned interpreter does); components deterministic as the property requires; optional packages absent.",
    tech="deterministic simulation: real Experiment.run on simulated worker processes under a seeded scheduler, differential oracle against the in-process run")
-PENDING = {k: "claimed in DESIGN.md; check under construction in this round (deterministic-simulation engine exists, driver not yet committed)" for k in ("C02","C03","C04","C05","C07","C12")}
+CLAIMED["C03"] = dict(cat="exploration", ref="DESIGN.md 3.3",
+   text="For each generated experiment (sampled sharing pattern of learner/environment/evaluator objects, shared chunk()/cache() prefixes) with component failures injected at sampled positions, the together-run under a sampled configuration and seeded schedule is compared triple by triple with the alone-run of that triple on pristine objects; additionally a triple during whose evaluation a failure fired must have no rows, the failure must be in the log, and shared learner objects must be unchanged after run().",
+   note="Trusted base: as C01; injected failures are functions of the component's own local history; the alone-run uses the same coba code (the independent checks 'failing triple has no rows' and 'exception logged' do not).",
+   tech="deterministic simulation: real Experiment.run on simulated workers under a seeded scheduler + component-failure injection, differential (alone vs together) and history oracles")
+PENDING = {k: "claimed in DESIGN.md; check under construction in this round (deterministic-simulation engine exists, driver not yet committed)" for k in ("C02","C04","C05","C07","C12")}
 NA = {
  "C06": "SequentialCB is a single-threaded loop whose outputs are a pure function of (environment, learner, mode); no schedule, clock, fault or crash point occurs in the property.",
  "C09": "Ordering/selection filters are pure functions of (input sequence, parameters, seed); nothing for a simulator to schedule or fault.",
